@@ -755,6 +755,8 @@ def gen_noise(rng):
 
 
 POSTSELECTS = ["[0]==1", "[0]<2 & [1]>0", "[0,1]==1", "([0]==0 | [1]==1) & [0,1]<3", "[1]>=1 xor [0]==1", "![0]==2"]
+# for experiments also a negation as a non-last operand (stand-alone expressions: family `psx`, Model/C15PS.lean)
+EXP_POSTSELECTS = POSTSELECTS + ["(![0]==2) & [1]<3"]
 
 
 def gen_experiment_case(rng, depth_max, m_max):
@@ -796,7 +798,7 @@ def gen_experiment_case(rng, depth_max, m_max):
             "noise": gen_noise(rng) if rng.random() < 0.4 else None, "items": items, "heralds": heralds,
             "ports": ports, "dets": dets, "input": inp,
             "filter": rng.choice([None, None, 0, 0, 1, 2, rng.randint(0, 5)]),
-            "ps": rng.choice(POSTSELECTS) if rng.random() < 0.3 else None,
+            "ps": rng.choice(EXP_POSTSELECTS) if rng.random() < 0.3 else None,
             "env": gen_env(rng, names), "entry": rng.choice(["text", "textz", "file", "filez"])}
 
 
@@ -2615,7 +2617,12 @@ def run(chk: core.Check):
                 "named and polarised Unitary, permutations, barriers, polarisation components; experiments with "
                 "heralds, ports, detectors, noise, input, filter (None/0/n), post-selection, TD/LC; detectors, ports, "
                 "heralds, noise models, numeric and symbolic matrices, basic states with annotations, state vectors, "
-                "the three distributions, sample lists, post-selections, dict/list containers; feed-forward circuit "
+                "the three distributions, sample lists (their texts compared character by character with "
+                "Model/C15Text.lean, plus respelled / damaged variants of every text for the readers), post-selection "
+                "expressions generated as syntax trees (all comparators and operators, negations in every position, "
+                "nesting; Model/C15PS.lean), dict/list trees nested to depth 4 with string and object keys, every "
+                "kind of passthrough value and every form of the compress argument (Model/C15Tree.lean), 32-bit float "
+                "conversion of doubles of 14 classes (Model/C15F32.lean); feed-forward circuit "
                 "providers (histories of add_configuration / block_circuit_size calls, circuits and experiments of "
                 "different sizes as payloads, frozen or not, nested) and configurators, stand-alone, in containers and "
                 "inside experiments (one or two, shared detectors, components after them, shared variables); entry points text "
@@ -2626,12 +2633,21 @@ def run(chk: core.Check):
         "protobuf wire encoding, base64, zlib and json are trusted (DESIGN section 8); the model starts at message fields",
         "float(expression) (sympy) is an external function; Expression sub-parameters are plain Parameters",
         "Parameter bounds (min/max/periodic) are not serialised and not compared",
-        "feed-forward: the size bookkeeping of FFCircuitProvider (history of add_configuration / block_circuit_size "
-        "calls, message, reader) is modelled (Model/C15FF.lean); its payloads and FFConfigurator are checked by the "
-        "direct round-trip oracle only; FFConfigurator values travel as 32-bit floats (compared as such, generated in "
-        "[0, 6.2] where that is below the 1e-6 text precision)",
-        "a provider key assigned twice, the second time with a smaller circuit than the one that set the maximal size, "
-        "is a boundary outside the generator: the maximal size is not serialised (theorem FF.replaced_key_loses_max)",
+        "feed-forward: the size bookkeeping of FFCircuitProvider (any history of add_configuration / block_circuit_size "
+        "calls, message, reader) and the value tables of FFConfigurator (32-bit floats, Model/C15F32.lean) are "
+        "modelled (Model/C15FF.lean); their payload circuits / experiments are checked by the direct round-trip "
+        "oracle; a table value of modulus 32 or more moves by more than 1e-6 (theorem F32.f32_beyond_text_precision): "
+        "there only the 32-bit value is compared",
+        "a provider key assigned twice, the second time with a smaller circuit than the one that set the maximal size: "
+        "the maximal size is not serialised, the rebuilt provider holds the largest size present (theorem "
+        "FF.roundtrip_provider_any_history); generated stand-alone, everything else must survive",
+        "text formats: the native StateVector drops a term whose squared modulus is not above 1e-12 and normalises "
+        "lazily (keys of an SVDistribution are normalised when inserted): the model's reader returns the formal sum of "
+        "the text, compared up to those two effects; annotation values other than natural numbers up to 2^24 and "
+        "polarisation letters (complex / fractional values) are outside the model (direct oracle only); the model "
+        "readers accept a sub-language of what the real readers accept (compared one way on damaged texts)",
+        "containers: keys are strings or serialisable objects hashed by value; int/float/bool/None keys (json turns "
+        "them into strings), tuples, and strings that start with ':PCVL:' are boundaries outside the generator",
         "Detector(max_detections=0), empty parameter names, constant Expressions and names sympy treats as constants "
         "are boundary inputs outside the generator",
     ]
